@@ -145,6 +145,8 @@ func (l LinLen) add(m LinLen, sign int64) LinLen {
 type SeqEval struct {
 	Path *Path
 	Env  map[ssa.Value]Seq // parameter substitution for inlined helpers
+	// EnvList substitutes list-typed ([][]byte) parameters of inlined helpers by the layouts of the elements passed.
+	EnvList map[ssa.Value][]Seq
 	// DelimGlobal is the package-level variable holding the delimiter ("Delimiter"); its value is taken to be {1}
 	// (clients check its initialiser and that nothing stores to it).
 	Depth int
@@ -278,6 +280,17 @@ func (e *SeqEval) Eval(v ssa.Value) Seq {
 		}
 		if cal := StaticCallee(&x.Call); cal != nil {
 			if cal.Pkg != nil && cal.Pkg.Pkg.Path() == "bytes" && cal.Name() == "Join" {
+				if seqs, ok := e.EnvList[x.Call.Args[0]]; ok {
+					sep := e.Eval(x.Call.Args[1])
+					var out Seq
+					for i, el := range seqs {
+						if i > 0 {
+							out = append(out, sep...)
+						}
+						out = append(out, el...)
+					}
+					return out
+				}
 				if elems, ok := e.listElems(x.Call.Args[0], 0); ok {
 					sep := e.Eval(x.Call.Args[1])
 					var out Seq
@@ -294,12 +307,22 @@ func (e *SeqEval) Eval(v ssa.Value) Seq {
 			if cal.Pkg != nil && strings.HasPrefix(cal.Pkg.Pkg.Path(), "github.com/b2broker/simplefix-go") && len(cal.Blocks) == 1 && cal.Signature.Recv() == nil && cal.Signature.Results().Len() == 1 {
 				if ret, ok := cal.Blocks[0].Instrs[len(cal.Blocks[0].Instrs)-1].(*ssa.Return); ok && len(ret.Results) == 1 {
 					env := map[ssa.Value]Seq{}
+					envList := map[ssa.Value][]Seq{}
 					for i, p := range cal.Params {
 						if i < len(x.Call.Args) && isByteish(p.Type()) {
 							env[p] = e.Eval(x.Call.Args[i])
 						}
+						if sl, ok := p.Type().Underlying().(*types.Slice); ok && i < len(x.Call.Args) && isByteish(sl.Elem()) {
+							if elems, ok := e.listElems(x.Call.Args[i], 0); ok {
+								var seqs []Seq
+								for _, el := range elems {
+									seqs = append(seqs, e.Eval(el))
+								}
+								envList[p] = seqs
+							}
+						}
 					}
-					sub := &SeqEval{Env: env, Depth: e.Depth}
+					sub := &SeqEval{Env: env, EnvList: envList, Depth: e.Depth}
 					return sub.Eval(ret.Results[0])
 				}
 			}
